@@ -627,6 +627,19 @@ fn main() {
             }
             0
         }
+        Some("corpus-dump") if args.len() >= 2 => {
+            // corpus-dump <dir>: write the extracted test inputs as files (fuzzing seeds)
+            let _ = std::fs::create_dir_all(&args[1]);
+            let mut n = 0;
+            for (k, (_, b)) in vharness::corpus::components().iter().chain(vharness::corpus::modules().iter()).enumerate() {
+                if b.len() <= 16384 {
+                    let _ = std::fs::write(format!("{}/seed{:04}.wasm", args[1], k), b);
+                    n += 1;
+                }
+            }
+            println!("{} files", n);
+            0
+        }
         Some("corpus") => {
             let c = vharness::corpus::components();
             let m = vharness::corpus::modules();
